@@ -3,7 +3,7 @@
 From Coq Require Import Lia.
 From DepsDev Require Import Lib.Base Lib.Order Lib.PadLex Lib.BytesFacts Semver.Version Semver.Maven Semver.MavenParse
   Semver.MavenDomain Semver.MavenItems Semver.Compare Semver.Generic_proofs Semver.Maven_proofs Spec.MavenSpec
-  Gen.SemverTables.
+  Gen.SemverTables Gen.MavenVariants.
 Local Open Scope Z_scope.
 
 (* ------------------------------------------------------------------ list comparison, named *)
@@ -527,16 +527,25 @@ Proof. vm_compute. repeat split; reflexivity. Qed.
 
 Definition s_1_final_snapshot : bytes := [49; 45; 102; 105; 110; 97; 108; 45; 83; 78; 65; 80; 83; 72; 79; 84]%N.
 Definition s_1_snapshot : bytes := [49; 45; 83; 78; 65; 80; 83; 72; 79; 84]%N.
-(* F-C02-15: 1-final-SNAPSHOT against 1-SNAPSHOT *)
-Lemma maven_nulldash_witness :
-  mvn_cmp_strings false s_1_final_snapshot s_1_snapshot = Some 0 /\ d_mvn_c02_str s_1_final_snapshot = true /\
+(* F-C02-15: 1-final-SNAPSHOT against 1-SNAPSHOT, under both variants of the zero test *)
+Lemma maven_nulldash_witness z :
+  mvn_cmp_strings z s_1_final_snapshot s_1_snapshot = Some 0 /\ d_mvn_c02_str s_1_final_snapshot = true /\
   d_mvn_c02_str s_1_snapshot = true /\ mspec_compare s_1_final_snapshot s_1_snapshot = 1.
-Proof. vm_compute. repeat split; reflexivity. Qed.
+Proof. destruct z; vm_compute; repeat split; reflexivity. Qed.
+
+(* what the tree does with the pair of F-C02-11 *)
+Lemma maven_zero_tree :
+  mvn_cmp_strings mvn_fix_zero_spelling s_1_00 s_1 = (if go_mvn_zero_spelling_fixed then Some 0 else Some 1) /\
+  mspec_compare s_1_00 s_1 = 0.
+Proof.
+  destruct maven_zero_witness as [A [B C]]. split; [|exact B].
+  unfold mvn_fix_zero_spelling. destruct go_mvn_zero_spelling_fixed; assumption.
+Qed.
 
 (* non-vacuity: 1.0-alpha-1 and 1.0-SNAPSHOT are in the domain of the theorem, their element
    lists stand for the normalised ComparableVersion trees of the strings, and both sides say -1 *)
 Lemma maven_c02_nonvacuous :
-  match mvn_parse s_1_0_alpha_1, mvn_parse s_1_0_snapshot with
+  match mvn_parse_with false s_1_0_alpha_1, mvn_parse_with false s_1_0_snapshot with
   | Some (Ok a), Some (Ok b) =>
       c02_wide_b (mvn_elems a) = true /\ c02_wide_b (mvn_elems b) = true /\
       items_of (mvn_elems a) = comparable_version s_1_0_alpha_1 /\
